@@ -514,7 +514,7 @@ pub fn rerun(path: &str) -> bool {
 }
 
 // ---------------------------------------------------------------- leg (C)
-const HOSTILE: &[&str] = &["", "a", "<", "&", "\"", "'", ">", "]]>", "--", "?>", " ", "é", "&amp;", " a ", "\n", "<a>", "</a>", "日本", "a]]>b]]>", "]]", "&#60;", "x=\"y\""];
+const HOSTILE: &[&str] = &["", "a", "<", "&", "\"", "'", ">", "]]>", "--", "?>", " ", "é", "&amp;", " a ", "\n", "<a>", "</a>", "日本", "a]]>b]]>", "]]", "&#60;", "x=\"y\"", "a\tb", "\r\n", "\r", "\t"];
 const NAMES: &[&str] = &["a", "é", "a:b", "b-1", "_x"];
 
 pub fn record(out: &str, seed: u64, n: usize) -> Value {
